@@ -575,7 +575,7 @@ def misc_codecs():
 
 def main(tier, seed):
     t0 = core.now()
-    bound = 2 if tier == 'quick' else 3
+    bound = 3 if tier == 'quick' else 4
     names = list(CALLS)
     call_sets = [tuple(c) for c in itertools.permutations(names, 2)] if tier == 'thorough' else \
         [tuple(c) for c in itertools.combinations(names, 2)]
